@@ -1,0 +1,23 @@
+//go:build verif
+
+// Contracts for package clientpool (round-robin pool of shared clients), checked by /verif/govc. Comment-only: no code.
+package clientpool
+
+//@ func New
+//@ props C11
+//@ modifies nothing
+//@ ensures [size-must-be-positive] iff(result1 != nil, size <= 0) && imp(result1 != nil, result0 == nil)
+//@ ensures [empty-pool] imp(result1 == nil, fresh(result0) && len(result0.pool) == 0 && cap(result0.pool) == size && result0.i == 0)
+
+//@ func (p *Pool) Add
+//@ props C11
+//@ ensures [appended] len(p.pool) == old(len(p.pool)) + 1 && p.pool[len(p.pool)-1] == conn && forall(k, 0, old(len(p.pool)), p.pool[k] == old(p.pool)[k])
+//@ modifies p.pool
+
+// Round robin: the k-th call hands out member k mod size; an empty pool hands out the zero value (no fault).
+//@ func (p *Pool) Next
+//@ props C11
+//@ env [the-counter-is-unsigned] p.i >= 0
+//@ ensures [counter-advances] p.i == old(p.i) + ite(len(p.pool) == 0, 0, 1)
+//@ ensures [next-member-in-turn] imp(len(p.pool) > 0, result == p.pool[(old(p.i) + 1) % len(p.pool)])
+//@ modifies p.i
